@@ -228,7 +228,7 @@ func parsers(c *simkit.Choices, x *simkit.Ctx) *simkit.Violation {
 		}
 		sc.Cuts = append(sc.Cuts, cuts)
 		if extreme != "" {
-			sc.History = append(sc.History, fmt.Sprintf("(extreme shape %s, %d bytes) %s", extreme, len(d.Bytes), trunc(hex.EncodeToString(d.Bytes[:64]), 128)))
+			sc.History = append(sc.History, fmt.Sprintf("(extreme shape %s, %d bytes) %s", extreme, len(d.Bytes), trunc(hex.EncodeToString(d.Bytes), 128)))
 		} else if i < nh {
 			sc.History = append(sc.History, hex.EncodeToString(d.Bytes))
 		} else {
